@@ -6,6 +6,7 @@ import (
 	"go/token"
 	"go/types"
 	"golang.org/x/tools/go/cfg"
+	"strings"
 )
 
 // evalExpr evaluates e with go/constant, taking free operands from lookup. ok=false if e contains anything else.
@@ -276,6 +277,12 @@ func (pe *pathEvaluator) transfer(n ast.Node, env map[string]absVal) map[string]
 			return
 		}
 		env[k] = v
+		// cells of fields of k ("k.F") do not survive a reassignment of k itself
+		for k2 := range env {
+			if strings.HasPrefix(k2, k+".") {
+				delete(env, k2)
+			}
+		}
 	}
 	switch s := n.(type) {
 	case *ast.AssignStmt:
